@@ -53,7 +53,7 @@ func lemmaSaved(mbox *MailboxView, options *imap.SearchOptions, uidSet imap.UIDS
 // pre@call obligations of Move are not claimed under any property.)
 //
 //@ func (sess *UserSession) Move(w *imapserver.MoveWriter, numSet imap.NumSet, destName string) (err error)
-//@   props C08:post,callsite C04:post C05:post C06:post C09:post
+//@   props C08:post,callsite C04:post C05:post C06:post C09:post C02:post
 //@   ensures !__called("MoveWriter.WriteExpunge")
 //@   ensures err == nil ==> __called("MoveWriter.WriteCopyData") && __called("Mailbox.expungeLocked")
 
@@ -149,7 +149,7 @@ var _ = strings.ToLower
 // messages for sequence numbers, the highest UID in use for UIDs.
 //
 //@ func (mbox *MailboxView) staticNumSet(numSet imap.NumSet) (result imap.NumSet)
-//@   props C09:callsite C08:callsite C04:post C05:post C06:post
+//@   props C09:callsite C08:callsite C04:post C05:post C06:post C02:post
 //@   requires mbox != nil
 //@   callsite staticNumRange(start, stop *uint32, max uint32) requires start != nil && stop != nil && start != stop && max == uint32(len(mbox.l))
 
@@ -158,7 +158,7 @@ var _ = strings.ToLower
 // messages have been expunged; only for an empty mailbox is UIDNEXT-1 used.
 //
 //@ func (mbox *Mailbox) staticUIDSetLocked(uidSet imap.UIDSet) (result imap.UIDSet)
-//@   props C09:callsite C08:callsite C04:post C05:post C06:post
+//@   props C09:callsite C08:callsite C04:post C05:post C06:post C02:post
 //@   requires mbox != nil
 //@   callsite staticNumRange(start, stop *uint32, max uint32) requires start != nil && stop != nil && start != stop && ((len(mbox.l) > 0 && max == uint32(mbox.l[len(mbox.l)-1].uid)) || (len(mbox.l) == 0 && max == uint32(mbox.uidNext)-1))
 
@@ -228,7 +228,7 @@ func userMailbox(u *User, name string) *Mailbox { return u.mailboxes[name] }
 // client knows it by - for every number set and tracker state.
 //
 //@ func (mbox *MailboxView) forEachLocked(numSet imap.NumSet, f func(seqNum uint32, msg *message))
-//@   props C08:callsite,bounds,inv-init,inv-step C06:post C09:post C04:post C05:post
+//@   props C08:callsite,bounds,inv-init,inv-step C06:post C09:post C04:post C05:post C02:post
 //@   requires mbox.Mailbox != nil && mbox.tracker != nil && len(mbox.l) < 0xFFFFFFFF
 //@   callsite f(seqNum uint32, msg *message) requires seqNum >= 1 && int(seqNum) <= len(mbox.l) && mbox.l[seqNum-1] == msg
 //@   loop 0 vars (i int)
